@@ -12,6 +12,7 @@ Inductive cks_obs :=
 Inductive case :=
 | CResolve (arts : list artifact) (qs : list query)
 | CChecksum (s : bytes) (o : cks_obs)
+| CChecksum512 (s : bytes) (o : cks_obs)      (* Checksum<Sha512>::from_str *)
 | CToml (arts : list tart) (tree : option tv) (parse_ok rt_eq : bool).
     (* arts: the inventory handed to Display; tree: the rendered text as an independent TOML reader
        (Python tomllib) sees it, None = not valid TOML; parse_ok / rt_eq: FromStr succeeded / gave
@@ -19,6 +20,8 @@ Inductive case :=
 
 Definition spec_sha256_name : bytes := [115; 104; 97; 50; 53; 54].   (* "sha256" *)
 Definition spec_sha256_len : N := 32.
+Definition spec_sha512_name : bytes := [115; 104; 97; 53; 49; 50].   (* "sha512" *)
+Definition spec_sha512_len : N := 64.
 
 (* the TOML stream instantiates the version with a string ("x.y.0", semver::Version) and the
    metadata with Option<String>; the checksum validator is Checksum<Sha256>::from_str *)
@@ -57,6 +60,14 @@ Definition holds (c : case) : bool :=
       | Err _, CkErr _ => true
       | _, _ => false
       end
+  | CChecksum512 s o =>
+      match parse_checksum (beq spec_sha512_name) (N.eqb spec_sha512_len) s, o with
+      | Ok (n, v), CkOk n' v' shown rp =>
+          beq n n' && beq v v' && rp &&
+          match shown with Some t => beq t (show_checksum (n, v)) | None => false end
+      | Err _, CkErr _ => true
+      | _, _ => false
+      end
   | CToml arts tree p r => p && r      (* the property: parsing the rendered text gives equal artifacts *)
   end.
 
@@ -79,6 +90,7 @@ Definition toml_reads_back (arts : list tart) (tree : option tv) : bool :=
 Definition branch_of (c : case) : N :=
   match c with
   | CResolve arts qs => N.of_nat (length (filter (fun q => match q_partial q with Some _ => true | None => false end) qs))
+  | CChecksum512 s o => match o with CkOk _ _ _ _ => 200 | CkErr _ => 201 end
   | CChecksum s o => match o with CkOk _ _ _ _ => 100 | CkErr MissingPrefix => 101 | CkErr IncompatiblePrefix => 102
                                   | CkErr InvalidValue => 103 | CkErr InvalidLength => 104 end
   | CToml arts _ _ _ => 200 + N.of_nat (length arts)
